@@ -96,6 +96,10 @@ def site_of(w, res):
     """component under test for an escaping exception; unbounded recursion is attributed to the decider that drives it"""
     if res.foreign and res.foreign.startswith("RecursionError") and w.rep_kind in ("tree", "ge", "sge"):
         return f"{w.decider_kind}-decider"
+    if res.foreign and res.foreign.startswith("NotImplementedError@dependent.validate") and w.rep_kind == "stack":
+        # the known finding exists only where the stack machine validates refinements, i.e. in modules with string annotations
+        string_mode = bool(w.spec.get("future_annotations")) or getattr(w, "is_corpus", False)
+        return "stack/string-annotations" if string_mode else "stack/real-annotations"
     return w.rep_kind
 
 
